@@ -1,4 +1,5 @@
 GROUPS = [{'name': 'main', 'sources': ['String.cpp'], 'harness': 'h_c16.cpp', 'env': ['vlibc.c']},
+          {'name': 'sock', 'sources': ['Socket.cpp', 'String.cpp'], 'harness': 'h_c16_sock.cpp', 'env': ['vlibc.c', 'vsock.c'], 'native_extra': ['vsock.c']},
           {'name': 'file', 'sources': ['File.cpp', 'String.cpp'], 'harness': 'h_c16_file.cpp', 'env': ['vlibc.c', 'vstdio.c']}]
 
 
@@ -14,10 +15,12 @@ def instances(tier):
         out.append({'entry': 'h_string', 'params': [n], 'bound': 'strings of %d NUL-free bytes' % n})
     for p in ([1, -1, 0], [2, -1, 0], [0, 1, 2], [0, 3, 2], [1, 1, 1]) if q else ([1, -1, 0], [2, -1, 0], [3, -1, 0], [0, 1, 3], [0, 3, 3], [1, 1, 2], [1, 3, 2]):
         out.append({'group': 'file', 'entry': 'h_file_seq', 'params': p, 'bound': 'File operator<< / >>: %d scalar(s) of any of 8 types, then an array (kind %d) of %d elements; all bit patterns, all byte orders' % tuple(p)})
+    for p in ([1, 2], [2, 1], [2, 0]) if q else ([1, 3], [2, 1], [2, 2], [2, 0], [3, 1]):
+        out.append({'group': 'sock', 'entry': 'h_sock_seq', 'params': p, 'bound': 'Socket operator>> / <<: %d value(s) of 6 scalar types, all bit patterns and byte orders, %s' % (p[0], ('%d read(s) return short at any byte position' % p[1]) if p[1] else 'delivered whole')})
     return out
 
 
 BOUNDS = {'quick': 'sequences of 1-2 typed scalars with a byte-order switch at any point; arrays of 0,1,3 elements of byte/short/int/Long/float/double; strings of 1 and 3 bytes',
           'thorough': 'sequences of up to 3 scalars; arrays up to 5 elements'}
-OUTSIDE = ['sequences longer than 3 values (the property text asks for 64)', 'arrays longer than 5', 'the Socket variants of the operators']
+OUTSIDE = ['sequences longer than 3 values (the property text asks for 64)', 'arrays longer than 5', 'Socket arrays; real sockets (sockets = env/vsock.c)']
 ASSUMPTIONS = ['target is little-endian x86-64 (ENDIAN_NATIVE == ENDIAN_LITTLE)']
